@@ -171,6 +171,25 @@ void shim_clear()
     g_pool.report_in_worker = false;
 }
 
+// POSITIVE CONTROL for the race-detector pass: a deliberately racy Task (every sub-range adds into one shared member without
+// synchronisation), dispatched through PyImath::dispatchTask like any vectorised operation.  valgrind --tool=drd must
+// report a conflicting access inside RacyControl::execute, otherwise the pass proves nothing.
+struct RacyControl : public PyImath::Task
+{
+    volatile long shared = 0;
+    void execute(size_t start, size_t end) override
+    {
+        for (size_t i = start; i < end; ++i) shared = shared + (long) i;
+    }
+};
+
+long shim_racy_control(size_t length)
+{
+    RacyControl t;
+    PyImath::dispatchTask(t, length);
+    return t.shared;
+}
+
 int shim_installed() { return PyImath::WorkerPool::currentPool() == &g_pool ? 1 : 0; }
 
 // out[0..6] = dispatches, ranges executed, fallbacks (script did not fit), exceptions in threads,
